@@ -117,6 +117,13 @@ class Run:
     def stat(self, k, n=1):
         self.stats[k] = self.stats.get(k, 0) + n
 
+    def degenerate(self):
+        """An honest candidate that the code refuses is left out of the history (the reference ledger does not adopt it
+        either), so a check that uses the history as SETUP can go on; refusing valid blocks is judged by the properties that
+        talk about it (C04 arrivals, C05/C12 own assembly, C10 convergence).  Only when a large part of the history is
+        refused is the setup useless: that is a harness error."""
+        return len(self.harness) > max(1, self.stats.get("candidates", 0) // 3)
+
     def fail(self, kind, sig, msg):
         self.fails.append({"kind": kind, "sig": sig, "msg": msg})
 
@@ -145,6 +152,50 @@ class Run:
             txs = txs + [self.world.txs[names[len(names) // 2]]]
         self.stat("twins")
         return R.RBlock(base.height, base.prev, base.merkle, base.ts, base.target, base.nonce, base.ev, txs)
+
+    def probe_other_interval_starts(self, op, blk, now):
+        """An honest candidate at a retarget boundary was REFUSED.  Which target does the code want instead?  Offer the same
+        block with the target the rule would give from every OTHER stored block at the interval-start height (another
+        branch's ancestors): if one of them is accepted, the code prescribes the target from a chain that is not the block's own."""
+        import copy
+        period = self.case["cfg"][0]
+        if blk.height % period != 0 or blk.height - period < 0:
+            return
+        led = self.world.uni
+        parent = led.nodes.get(blk.prev)
+        if parent is None:
+            return
+        sh = blk.height - period
+        try:
+            own = parent.chain[sh]
+        except Exception:
+            return
+        k = 0
+        for nid, n in list(led.nodes.items()):
+            if n.height != sh or nid == own:
+                continue
+            alt = R.retarget(parent.blk.target, max(1, blk.ts - n.blk.ts), self.world.cfg.timespan)
+            if alt == blk.target:
+                continue
+            k += 1
+            op2 = copy.deepcopy(op)
+            op2.update(label="%s?%d" % (op["label"], k), probe=True, mut="C05:target_other_chain", form="obj")
+            op2.setdefault("hdr", {})["target"] = ["hex", alt.hex()]
+            op2["txs"] = [{"copy": t["name"]} if isinstance(t, dict) and "name" in t and t["name"] in self.world.txs else t for t in op2.get("txs", [])]
+            try:
+                cand = self.world.build_block(op2)
+            except Exception:
+                continue
+            if cand is None:
+                continue
+            self.stat("probes_other_interval_start")
+            try:
+                self.cs.add_block(self.build.to_sk_block(cand), now)
+            except Exception:
+                continue
+            self.fail("accepted_invalid", "accepted:C05:target", "the honest candidate %s at a retarget boundary was refused, but the same block with the target computed from ANOTHER branch's interval start (%s) was accepted" % (
+                op["label"], nid.hex()[:12]))
+            return
 
     def execute(self):
         b = self.build
@@ -256,6 +307,8 @@ class Run:
                     else:
                         self.harness.append("honest candidate %s rejected: %r" % (op["label"], err))
                         self.stat("honest_rejected")
+                        if "C05" in self.focus and not op.get("probe"):
+                            self.probe_other_interval_starts(op, blk, now)
                 else:
                     self.stat("clause:" + verdict[0])
             # non-trivial rule
@@ -325,8 +378,11 @@ def drive(res, seed_, n_hist, tier, focus, cats, pid, n_blocks=(6, 14), p_mut=0.
         if run.nontrivial:
             res.nontrivial(env.digest(case))
         if run.harness:
-            res.count("harness_honest_rejected", len(run.harness))
-            if len(res.errors) < 3:
+            res.count("honest_candidates_refused", len(run.harness))
+            res.extra.setdefault("honest_candidates_refused_examples", [])
+            if len(res.extra["honest_candidates_refused_examples"]) < 3:
+                res.extra["honest_candidates_refused_examples"].append(run.harness[0])
+            if run.degenerate() and len(res.errors) < 3:
                 res.error(run.harness[0] + " (case %s)" % env.digest(case))
         if res.counters["histories"] % 7 == 1:
             res.sample({"cfg": case["cfg"], "ops": case["ops"][:3], "n_ops": len(case["ops"])}, limit=2)
